@@ -679,6 +679,11 @@ func init() {
 				e.flags = append(e.flags, buildFlags{Pattern: "//...", HashAlgo: "sha256"}, buildFlags{Pattern: "//...", LoadOutputs: "minimal"})
 			}
 		})(c)
+		// chain workspace: edits x taint; a taint is consumed by whatever execution follows it (also one caused by an edit),
+		// afterwards a no-op build executes nothing
+		chainCheck("C02", []string{"C02:", "C13:dependant-or-clean-target-executed"}, 5, 6, func(e *chainEngine, thorough bool) {
+			e.ops = []chainOp{opEditFirst, opEditY, opTaintY, opBuild}
+		})(c)
 		if !c.Thorough {
 			// quick: one operation deeper from the state after a first `build //...`
 			histCheck("C02", []string{"C02:"}, 3, 4, func(e *histEngine, thorough bool) {
